@@ -490,7 +490,8 @@ def run_check(mod, tier, seed, replay=None):
              " no-failing-input-found")
     elif ctx.diffs:
         emit({"kind": "correspondence-broken", "op": ctx.diffs[0]["op"],
-              "first_difference": ctx.diffs[0], "differences": len(ctx.diffs)},
+              "first_difference": ctx.diffs[0], "differences": len(ctx.diffs),
+              "more_differences": ctx.diffs[1:12]},
              " no-failing-input-found")
 
     # 5. evidence
